@@ -166,12 +166,14 @@ Print Assumptions C01_conflict_ctors_total.
 
 (** the tables behind the model are the source's today (Gen/ErrorCtx.v regenerated on every run): which kinds have
     an [as_str] text, the ContextKind enum, per constructor the context kinds attached unconditionally / conditionally
-    in order, and "format.rs contains exactly one unwrap and no expect/index/unreachable" *)
+    in order, and "format.rs contains exactly one unwrap and no expect/index/unreachable; mod.rs the two `others.pop().unwrap()`;
+    kind.rs and context.rs none" -- the three sites are [Panic 175] and [Panic 276] of the model *)
 Theorem C01_error_tables_match :
   List.map (fun k => (ekind_name k, is_some (kind_as_str k))) all_kinds = Gen.ErrorCtx.gen_kind_has_msg
   /\ List.map ckind_name all_ckinds = Gen.ErrorCtx.gen_context_kinds
   /\ model_ctor_ctx = Gen.ErrorCtx.gen_ctor_ctx
-  /\ Gen.ErrorCtx.gen_format_sites = [("write_dynamic_context", "unwrap", 0%N)]%string.
+  /\ Gen.ErrorCtx.gen_format_sites = [("write_dynamic_context", "unwrap", 0%N);
+                                      ("Error::argument_conflict", "unwrap", 0%N); ("Error::subcommand_conflict", "unwrap", 0%N)]%string.
 Proof. exact (conj kind_has_msg_match (conj context_kinds_match (conj ctor_ctx_match ctx_format_sites_match))). Qed.
 Print Assumptions C01_error_tables_match.
 
